@@ -13,10 +13,17 @@ import itertools
 from pv import core, sem
 
 MOD_HEAD = '''module mm
+  type :: pt
+    real :: x
+    real, dimension(0:4) :: v
+    integer :: k
+  end type pt
   integer :: gcount
   real, dimension(0:9) :: garr
 contains
-subroutine s(a, b, c, ia, n, m, t, u, kout)
+subroutine s(a, b, c, ia, n, m, t, u, kout, p, cols)
+  type(pt), intent(inout) :: p
+  type(pt), dimension(3), intent(inout) :: cols
   integer, intent(inout) :: n
   integer, intent(inout) :: m
   integer, intent(inout) :: kout
@@ -33,8 +40,9 @@ subroutine s(a, b, c, ia, n, m, t, u, kout)
   real :: eps
 '''
 DOM = [("n", [1, 2, 3]), ("m", [1, 2]), ("kout", [2]), ("t", [[1, 2]]), ("u", [[3, 1]]),
-       ("gcount", [5]), ("constants_mod::eps", [[1, 4]])]
-LIVE = ["a", "b", "c", "ia", "n", "m", "t", "u", "kout", "gcount", "garr"]
+       ("gcount", [5]), ("constants_mod::eps", [[1, 4]]), ("p%x", [[1, 2]]), ("p%k", [2])]
+LIVE = ["a", "b", "c", "ia", "n", "m", "t", "u", "kout", "gcount", "garr",
+        "p%x", "p%v", "p%k", "cols%x", "cols%v", "cols%k"]
 FILLS = [1, 2]
 
 # name -> (dummy list, declarations + body)
@@ -72,6 +80,30 @@ CALLEES = {
     "midret": ("y, p", ["real, intent(inout) :: y", "integer, intent(in) :: p",
                         "y = 2.0", "if (p > 2) return", "y = y + 1.0"]),
     "useimp": ("y", ["use constants_mod, only: eps", "real, intent(inout) :: y", "y = y + eps"]),
+    # sections and whole-array statements inside the callee, declared lower bounds
+    "rng4": ("v", ["real, dimension(4), intent(inout) :: v", "v(2:3) = 0.5", "v(:) = v(:) * 2.0"]),
+    "rnglb": ("v", ["real, dimension(2:5), intent(inout) :: v", "v(3:4) = v(2:3) + 1.0",
+                    "v(:) = v(:) + 1.0"]),
+    "rngas": ("v, p", ["real, dimension(:), intent(inout) :: v", "integer, intent(in) :: p",
+                       "v(1:p) = 3.0", "v(p:) = v(p:) + 1.0"]),
+    "rng2d": ("w", ["real, dimension(0:5,0:5), intent(inout) :: w", "w(1:2, 0) = w(0, 1:2)",
+                    "w(:, 3) = 1.0"]),
+    # structure arguments
+    "spt": ("s1", ["type(pt), intent(inout) :: s1", "s1%x = s1%x + 1.0", "s1%v(1) = s1%x",
+                   "s1%k = s1%k + 1"]),
+    "sptk": ("s1, k", ["type(pt), intent(inout) :: s1", "integer, intent(inout) :: k",
+                       "k = k + 1", "s1%v(k) = 2.0"]),
+    "sarr": ("sa, p", ["type(pt), dimension(3), intent(inout) :: sa", "integer, intent(in) :: p",
+                       "sa(p)%x = sa(1)%x + 1.0", "sa(p)%v(p) = 4.0"]),
+    "v5": ("v", ["real, dimension(0:4), intent(inout) :: v", "v(0) = v(4)", "v(1:2) = 6.0"]),
+    "v5one": ("v", ["real, dimension(5), intent(inout) :: v", "v(1) = v(5)", "v(2:3) = 6.0"]),
+    # functions
+    "fsq": ("y", ["real, intent(in) :: y", "real :: fsq", "fsq = y * y + 1.0"], "function"),
+    "fres": ("y, p", ["real, intent(in) :: y", "integer, intent(in) :: p", "real :: r",
+                      "integer :: i", "r = y", "do i = 1, p", "  r = r + real(i)", "end do"],
+             "function:r"),
+    "fx": ("y", ["real, intent(in) :: y", "real :: fx", "real :: x", "x = y + 1.0",
+                 "fx = x * 2.0"], "function"),
     "condret": ("y, p", ["real, intent(inout) :: y", "integer, intent(in) :: p",
                          "if (p > 1) then", "  y = 0.0", "else", "  y = 1.0", "end if"]),
 }
@@ -126,6 +158,31 @@ CALLERS = [
     (["useimp"], ["eps = 0.125", "call useimp(t)", "write(*,*) t, eps", "u = u + eps"]),
     (["useimp"], ["eps = 0.125", "call useimp(t)", "u = u + eps"]),
     (["useimp"], ["call useimp(t)", "call useimp(u)", "write(*,*) T, U"]),
+    (["rng4"], ["call rng4(a(2:5))"]),
+    (["rng4"], ["call rng4(c(1:4, m))"]),
+    (["rng4"], ["call rng4(a(n:n+3))"]),
+    (["rnglb"], ["call rnglb(a(3:6))"]),
+    (["rnglb"], ["call rnglb(b(0:3))"]),
+    (["rngas"], ["call rngas(a, m)"]),
+    (["rngas"], ["call rngas(a(2:6), n)"]),
+    (["rng2d"], ["call rng2d(c)"]),
+    (["spt"], ["call spt(p)"]),
+    (["spt"], ["call spt(cols(n))"]),
+    (["spt"], ["call spt(cols(p%k))", "call spt(p)"]),
+    (["sptk"], ["call sptk(p, n)"]),
+    (["sptk"], ["call sptk(cols(m), m)"]),
+    (["sarr"], ["call sarr(cols, m)"]),
+    (["v5"], ["call v5(p%v)"]),
+    (["v5"], ["call v5(cols(n)%v)"]),
+    (["v5one"], ["call v5one(p%v)"]),
+    (["addn"], ["call addn(p%x, n)", "call addn(cols(m)%v(n), m)"]),
+    (["elem_idx"], ["call elem_idx(p%v(n), n)"]),
+    (["elem_idx"], ["call elem_idx(cols(m)%x, m)"]),
+    (["fsq"], ["t = fsq(u) + 1.0"]),
+    (["fsq"], ["a(n) = fsq(a(m)) * fsq(t)"]),
+    (["fres"], ["u = fres(t, n)"]),
+    (["fres"], ["i = 2", "t = fres(u, i) + real(i)"]),
+    (["fx"], ["x = 1.5", "t = fx(u) + x"]),
     (["earlyret"], ["call earlyret(t, n)", "u = u + t", "a(n) = u"]),
     (["earlyret"], ["do i = 1, n", "  call earlyret(a(i), i)", "  b(i) = a(i) + 1.0", "end do"]),
     (["lastret"], ["call lastret(t, n)", "u = t * 2.0"]),
@@ -158,7 +215,13 @@ def items(tier):
         src = MOD_HEAD + "".join("  " + l + "\n" for l in ["x = 0.25", "k = 1"] + body) + \
             "end subroutine s\n"
         for nm in used:
-            args, lines = CALLEES[nm]
+            args, lines = CALLEES[nm][:2]
+            kind = CALLEES[nm][2] if len(CALLEES[nm]) > 2 else "subroutine"
+            if kind.startswith("function"):
+                res = f" result({kind.split(':')[1]})" if ":" in kind else ""
+                src += f"function {nm}({args}){res}\n" + "".join("  " + l + "\n" for l in lines) + \
+                    f"end function {nm}\n"
+                continue
             src += f"subroutine {nm}({args})\n" + "".join("  " + l + "\n" for l in lines) + \
                 f"end subroutine {nm}\n"
         src += "end module mm\n"
@@ -174,7 +237,7 @@ def apps(pid):
         return [c for c in r.walk(Call) if not isinstance(c, IntrinsicCall)]
 
     out = []
-    ncall = pid.count("call ")
+    ncall = pid.count("call ") + sum(pid.count(f + "(") for f in ("fsq", "fres", "fx"))
     for k in range(ncall):
         def one(r, k=k):
             cs = calls(r)
@@ -257,7 +320,33 @@ def m_index_modified(rec, clause, detail, finding):
     return False
 
 
-MATCHERS = {"element-actual-index-modified": m_index_modified}
+def m_member_array_lower_bound(rec, clause, detail, finding):
+    '''a whole array that is a structure member (p%v, cols(n)%v) is passed to a dummy
+    declared with a different lower bound: the callee's subscripts are copied unshifted'''
+    if clause not in ("SameObservable", "NoNewUndefined"):
+        return False
+    case = rec["case"]
+    dims = {d["name"]: d["dims"] for d in case["decls"]}
+    for call in _calls(case["progs"][0]["body"]):
+        sub = case["subs"].get(call["name"])
+        if not sub:
+            continue
+        for k, arg in enumerate(call["args"]):
+            if "%" not in arg.get("name", "") or arg.get("k") not in ("ref", "aref"):
+                continue
+            formal = sub["formals"][k]
+            if not formal.get("rank"):
+                continue
+            if arg["k"] == "aref" and any(i.get("k") == "range" for i in arg["idx"]):
+                continue                      # explicit sections are shifted correctly
+            actual_lo = [d[0] for d in dims.get(arg["name"], [])][-formal["rank"]:]
+            if actual_lo != list(formal["lo"]):
+                return True
+    return False
+
+
+MATCHERS = {"element-actual-index-modified": m_index_modified,
+            "member-array-lower-bound-not-shifted": m_member_array_lower_bound}
 
 
 def run(tier):
@@ -266,12 +355,12 @@ def run(tier):
     dom, fills = DOM, FILLS
     if tier != "quick":
         dom = [("n", [0, 1, 2, 3, 4]), ("m", [1, 2, 3]), ("kout", [2, 4]), ("t", [[1, 2], [-3, 2]]),
-               ("u", [[3, 1], [0, 1]]), ("gcount", [5, 1]), ("constants_mod::eps", [[1, 4], [-1, 2]])]
+               ("u", [[3, 1], [0, 1]]), ("gcount", [5, 1]), ("constants_mod::eps", [[1, 4], [-1, 2]]), ("p%x", [[1, 2], [-2, 1]]), ("p%k", [2, 1])]
         fills = [1, 2, 3, 4]
     fam = sem.TransFamily("C07", dom=dom, fills=fills, live=LIVE, apps=apps)
 
     def make():
-        ex = sem.Exporter()
+        ex = sem.Exporter(functions=True)
         ex.import_types = {"eps": "r"}
         return ex
     fam.make_exporter = make
